@@ -34,6 +34,7 @@ import AutomataVerif.Proofs.CtorKMPDfa
 import AutomataVerif.Proofs.CtorACDfa
 import AutomataVerif.Proofs.CtorFLMinimal
 import AutomataVerif.Proofs.Minimal
+import AutomataVerif.Proofs.CtorErrors
 
 namespace AV.Props.C15
 open AV AV.Ctor
@@ -153,96 +154,224 @@ example : Builds (countMod ['a', 'b'] 3 (some [1, 2]) (some ['a'])) ['a', 'b']
 
 /-! ## of_length -/
 
-/-- `of_length(Σ, min_length, max_length, symbols_to_count)` with `min_length ≥ 0`: a valid
-complete DFA accepting exactly the words over `Σ` whose number of counted symbols lies between
-`min_length` and `max_length` (no upper bound for `None`); all parameter values, degenerate ones
-included (`min > max`, nothing counted). -/
+/-- `of_length(Σ, min_length, max_length, symbols_to_count)`, general form: a valid complete DFA
+accepting exactly the words over `Σ` whose number of counted symbols lies between `min_length`
+and `max_length` (no upper bound for `None`) — all parameter values, degenerate ones included
+(`min > max`, `max < 0`, nothing counted, negative `min_length` without a maximum), with the one
+exception stated by `C15_of_length_negative_min` below (negative `min_length` together with a
+non-negative `max_length` and a counted symbol in `Σ`: the code raises). -/
+theorem C15_of_length_general (syms : List α) (minLen : Int) (maxLen : Option Int)
+    (count : Option (List α))
+    (h : 0 ≤ minLen ∨ maxLen = none ∨ (∃ mx, maxLen = some mx ∧ mx < 0) ∨
+      (∀ a ∈ syms, a ∉ count.getD syms)) :
+    Builds (ofLength syms minLen maxLen count) syms
+      (fun w => minLen ≤ countIn (count.getD syms) w ∧
+        ∀ mx, maxLen = some mx → (countIn (count.getD syms) w : Int) ≤ mx) := by
+  cases hdis : isDisjoint syms (count.getD syms) with
+  | true =>
+    -- first early return: nothing counted, every word has counted length 0
+    have hd := (isDisjoint_iff syms _).mp hdis
+    refine builds_of syms (ofLength_eq_disjoint syms minLen maxLen count hdis) (loopDFA_wf 0 syms _) rfl
+      (fun w => ?_)
+    rw [loopDFA_accepts, zeroInRange_iff]
+    refine and_congr_right fun hw => ?_
+    rw [countIn_eq_zero_of_disjoint hd hw]
+    simp
+  | false =>
+    cases hemp : emptyRange minLen maxLen with
+    | true =>
+      -- second early return: empty range of lengths
+      obtain ⟨mx, rfl, hmx⟩ := (emptyRange_iff _ _).mp hemp
+      refine builds_of syms (ofLength_eq_emptyRange syms minLen _ count hdis hemp) (loopDFA_wf 0 syms false)
+        rfl (fun w => ?_)
+      rw [loopDFA_accepts]
+      simp only [Bool.false_eq_true, and_false, false_iff, not_and]
+      intro _ h1 h2
+      have := h2 mx rfl
+      omega
+    | false =>
+      have hne : ¬ ∃ mx, maxLen = some mx ∧ (mx < minLen ∨ mx < 0) := by
+        rw [← emptyRange_iff, hemp]; simp
+      obtain ⟨c, hc, hcc⟩ := (isDisjoint_eq_false_iff syms _).mp hdis
+      cases maxLen with
+      | none =>
+        have hfin : ∀ r ∈ [nat minLen.toNat], 0 ≤ r ∧ r ≤ (minLen.toNat : Int) := by
+          intro r hr
+          simp only [List.mem_singleton] at hr
+          rw [hr, nat_cast]; omega
+        refine builds_of syms (ofLength_eq syms minLen none count hdis hemp) (ofLengthDFA_wf syms _ _ _ hfin) rfl
+          (fun w => ?_)
+        rw [ofLengthDFA_accepts syms _ _ _ hfin]
+        simp only [List.mem_singleton, nat_inj, reduceCtorEq, false_implies, implies_true, and_true]
+        constructor
+        · rintro ⟨h1, h2⟩; exact ⟨h1, by omega⟩
+        · rintro ⟨h1, h2⟩; exact ⟨h1, by omega⟩
+      | some mx =>
+        have hmx : minLen ≤ mx ∧ 0 ≤ mx := by
+          constructor
+          · exact Int.not_lt.mp fun hlt => hne ⟨mx, rfl, Or.inl hlt⟩
+          · exact Int.not_lt.mp fun hlt => hne ⟨mx, rfl, Or.inr hlt⟩
+        have hmin : 0 ≤ minLen := by
+          rcases h with h | h | ⟨m, hm, hm0⟩ | h
+          · exact h
+          · cases h
+          · cases hm; omega
+          · exact absurd hcc (h c hc)
+        have hfin : ∀ r ∈ (List.range (mx + 1 - minLen).toNat).map (fun j => minLen + nat j),
+            0 ≤ r ∧ r ≤ ((mx + 1).toNat : Int) := by
+          intro r hr
+          simp only [List.mem_map, List.mem_range] at hr
+          obtain ⟨j, hj, rfl⟩ := hr
+          rw [nat_cast]; omega
+        refine builds_of syms (ofLength_eq syms minLen (some mx) count hdis hemp)
+          (ofLengthDFA_wf syms _ _ _ hfin) rfl (fun w => ?_)
+        rw [ofLengthDFA_accepts syms _ _ _ hfin]
+        simp only [List.mem_map, List.mem_range, Option.some.injEq, forall_eq']
+        generalize countIn (count.getD syms) w = c
+        constructor
+        · rintro ⟨h1, j, hj, e⟩
+          rw [nat_cast, nat_cast] at e
+          exact ⟨h1, by omega, by omega⟩
+        · rintro ⟨h1, h2, h3⟩
+          refine ⟨h1, (c - minLen).toNat, by omega, ?_⟩
+          rw [nat_cast, nat_cast]; omega
+
+/-- `of_length` with `min_length ≥ 0` (lengths are naturals): all parameter values, degenerate
+ones included (`min > max`, nothing counted). -/
 theorem C15_of_length (syms : List α) (minLen : Int) (hmin : 0 ≤ minLen) (maxLen : Option Int)
     (count : Option (List α)) :
     Builds (ofLength syms minLen maxLen count) syms
       (fun w => minLen ≤ countIn (count.getD syms) w ∧
-        ∀ mx, maxLen = some mx → (countIn (count.getD syms) w : Int) ≤ mx) := by
-  cases maxLen with
-  | none =>
-    have hfin : ∀ r ∈ [nat minLen.toNat], 0 ≤ r ∧ r ≤ (minLen.toNat : Int) := by
-      intro r hr
-      simp only [List.mem_singleton] at hr
-      rw [hr, nat_cast]; omega
-    refine builds_of syms (ofLength_eq syms minLen none count) (ofLengthDFA_wf syms _ _ _ hfin) rfl
-      (fun w => ?_)
-    rw [ofLengthDFA_accepts syms _ _ _ hfin]
-    simp only [List.mem_singleton, nat_inj, reduceCtorEq, false_implies, implies_true, and_true]
-    constructor
-    · rintro ⟨h1, h2⟩; exact ⟨h1, by omega⟩
-    · rintro ⟨h1, h2⟩; exact ⟨h1, by omega⟩
-  | some mx =>
-    have hfin : ∀ r ∈ (List.range (mx + 1 - minLen).toNat).map (fun j => minLen + nat j),
-        0 ≤ r ∧ r ≤ ((mx + 1).toNat : Int) := by
-      intro r hr
-      simp only [List.mem_map, List.mem_range] at hr
-      obtain ⟨j, hj, rfl⟩ := hr
-      rw [nat_cast]; omega
-    refine builds_of syms (ofLength_eq syms minLen (some mx) count) (ofLengthDFA_wf syms _ _ _ hfin) rfl
-      (fun w => ?_)
-    rw [ofLengthDFA_accepts syms _ _ _ hfin]
-    simp only [List.mem_map, List.mem_range, Option.some.injEq, forall_eq']
-    generalize countIn (count.getD syms) w = c
-    constructor
-    · rintro ⟨h1, j, hj, e⟩
-      rw [nat_cast, nat_cast] at e
-      exact ⟨h1, by omega, by omega⟩
-    · rintro ⟨h1, h2, h3⟩
-      refine ⟨h1, (c - minLen).toNat, by omega, ?_⟩
-      rw [nat_cast, nat_cast]; omega
+        ∀ mx, maxLen = some mx → (countIn (count.getD syms) w : Int) ≤ mx) :=
+  C15_of_length_general syms minLen maxLen count (Or.inl hmin)
 
-/-- Minimality of `of_length` for non-degenerate parameters (`0 ≤ min`, `min ≤ max` when a
-maximum is given, some counted symbol belongs to the alphabet): all states reachable and
-pairwise distinguishable, hence no equivalent complete DFA is smaller. -/
-theorem C15_of_length_minimal (syms : List α) (minLen : Int) (hmin : 0 ≤ minLen) (maxLen : Option Int)
-    (count : Option (List α)) (hmax : ∀ mx, maxLen = some mx → minLen ≤ mx)
-    (c : α) (hc : c ∈ syms) (hcc : c ∈ count.getD syms) :
+/-- `of_length` without a maximum: every `min_length`, negative ones included (the language is
+then `Σ*`). -/
+theorem C15_of_length_unbounded (syms : List α) (minLen : Int) (count : Option (List α)) :
+    Builds (ofLength syms minLen none count) syms
+      (fun w => minLen ≤ countIn (count.getD syms) w) := by
+  obtain ⟨d, h1, h2, h3, h4⟩ := C15_of_length_general syms minLen none count (Or.inr (Or.inl rfl))
+  exact ⟨d, h1, h2, h3, fun w => by rw [h4]; simp⟩
+
+/-- The error outcome of `of_length`: a negative `min_length` with a non-negative `max_length`
+and some counted symbol in the alphabet makes `final_states = range(min_length, max_length + 1)`
+contain negative numbers, which are not states — the constructor raises `InvalidStateError`
+(no DFA, in particular no wrong DFA, is returned).  Together with `C15_of_length_general` this
+covers every input. -/
+theorem C15_of_length_negative_min (syms : List α) (minLen : Int) (hmin : minLen < 0) (mx : Int)
+    (hmx : 0 ≤ mx) (count : Option (List α)) (c : α) (hc : c ∈ syms) (hcc : c ∈ count.getD syms) :
+    ofLength syms minLen (some mx) count = .error (.lib .invalidStateError) := by
+  have hdis : isDisjoint syms (count.getD syms) = false :=
+    (isDisjoint_eq_false_iff syms _).mpr ⟨c, hc, hcc⟩
+  have hemp : emptyRange minLen (some mx) = false := by
+    rw [← Bool.not_eq_true, emptyRange_iff]
+    rintro ⟨m, hm, h⟩
+    cases hm; omega
+  rw [ofLength_eq syms minLen (some mx) count hdis hemp]
+  exact ofLengthDFA_negative_min syms _ minLen hmin mx hmx
+
+/-- Minimality of `of_length` for **all** parameters (since the repair bcfb456 the degenerate
+ones — empty range, nothing counted — return the one-state automaton): whenever a DFA is
+returned it is complete with all states reachable and pairwise distinguishable, hence no
+equivalent complete DFA is smaller. -/
+theorem C15_of_length_minimal (syms : List α) (minLen : Int) (maxLen : Option Int)
+    (count : Option (List α)) :
     ∀ d, ofLength syms minLen maxLen count = .ok d →
       d.allowPartial = false ∧ MinimalShape d ∧ MinimalAmongComplete d := by
   intro d hd
-  cases maxLen with
-  | none =>
-    have hwf := wf_of_build (ofLength_eq syms minLen none count) hd
-    rw [eq_of_build (ofLength_eq syms minLen none count) hd]
-    have h : MinimalShape (ofLengthDFA syms minLen.toNat (count.getD syms) [nat minLen.toNat]) := by
-      apply ofLengthDFA_minimal syms _ _ _ c hc hcc
-      intro i j hij hj
-      refine ⟨minLen.toNat - j, ?_⟩
-      simp only [List.mem_singleton, nat_inj]
-      have h1 : ¬ min minLen.toNat (i + (minLen.toNat - j)) = minLen.toNat := by omega
-      have h2 : min minLen.toNat (j + (minLen.toNat - j)) = minLen.toNat := by omega
-      simp [h1, h2]
-    exact ⟨rfl, h, C15_minimal_of_shape _ hwf h⟩
-  | some mx =>
-    have hm := hmax mx rfl
-    have hwf := wf_of_build (ofLength_eq syms minLen (some mx) count) hd
-    rw [eq_of_build (ofLength_eq syms minLen (some mx) count) hd]
-    have h : MinimalShape (ofLengthDFA syms (mx + 1).toNat (count.getD syms)
-        ((List.range (mx + 1 - minLen).toNat).map fun j => minLen + nat j)) := by
-      apply ofLengthDFA_minimal syms _ _ _ c hc hcc
-      intro i j hij hj
-      refine ⟨mx.toNat - i, ?_⟩
-      have h1 : nat (min (mx + 1).toNat (i + (mx.toNat - i))) ∈
-          (List.range (mx + 1 - minLen).toNat).map (fun j => minLen + nat j) := by
-        simp only [List.mem_map, List.mem_range]
-        refine ⟨(mx - minLen).toNat, by omega, ?_⟩
-        rw [nat_cast, nat_cast]; omega
-      have h2 : ¬ nat (min (mx + 1).toNat (j + (mx.toNat - i))) ∈
-          (List.range (mx + 1 - minLen).toNat).map (fun j => minLen + nat j) := by
-        simp only [List.mem_map, List.mem_range, not_exists, not_and]
-        intro x hx e
-        rw [nat_cast, nat_cast] at e
-        omega
-      simp [h1, h2]
-    exact ⟨rfl, h, C15_minimal_of_shape _ hwf h⟩
+  cases hdis : isDisjoint syms (count.getD syms) with
+  | true =>
+    have e := ofLength_eq_disjoint syms minLen maxLen count hdis
+    have hwf := wf_of_build e hd
+    rw [eq_of_build e hd]
+    exact ⟨by cases zeroInRange minLen maxLen <;> rfl, loopDFA_minimal 0 syms _,
+      C15_minimal_of_shape _ hwf (loopDFA_minimal 0 syms _)⟩
+  | false =>
+    cases hemp : emptyRange minLen maxLen with
+    | true =>
+      have e := ofLength_eq_emptyRange syms minLen maxLen count hdis hemp
+      have hwf := wf_of_build e hd
+      rw [eq_of_build e hd]
+      exact ⟨rfl, loopDFA_minimal 0 syms false, C15_minimal_of_shape _ hwf (loopDFA_minimal 0 syms false)⟩
+    | false =>
+      have hne : ¬ ∃ mx, maxLen = some mx ∧ (mx < minLen ∨ mx < 0) := by
+        rw [← emptyRange_iff, hemp]; simp
+      obtain ⟨c, hc, hcc⟩ := (isDisjoint_eq_false_iff syms _).mp hdis
+      cases maxLen with
+      | none =>
+        have hwf := wf_of_build (ofLength_eq syms minLen none count hdis hemp) hd
+        rw [eq_of_build (ofLength_eq syms minLen none count hdis hemp) hd]
+        have h : MinimalShape (ofLengthDFA syms minLen.toNat (count.getD syms) [nat minLen.toNat]) := by
+          apply ofLengthDFA_minimal syms _ _ _ c hc hcc
+          intro i j hij hj
+          refine ⟨minLen.toNat - j, ?_⟩
+          simp only [List.mem_singleton, nat_inj]
+          have h1 : ¬ min minLen.toNat (i + (minLen.toNat - j)) = minLen.toNat := by omega
+          have h2 : min minLen.toNat (j + (minLen.toNat - j)) = minLen.toNat := by omega
+          simp [h1, h2]
+        exact ⟨rfl, h, C15_minimal_of_shape _ hwf h⟩
+      | some mx =>
+        have hm : minLen ≤ mx := Int.not_lt.mp fun hlt => hne ⟨mx, rfl, Or.inl hlt⟩
+        have hm0 : 0 ≤ mx := Int.not_lt.mp fun hlt => hne ⟨mx, rfl, Or.inr hlt⟩
+        have hwf := wf_of_build (ofLength_eq syms minLen (some mx) count hdis hemp) hd
+        rw [eq_of_build (ofLength_eq syms minLen (some mx) count hdis hemp) hd]
+        have h : MinimalShape (ofLengthDFA syms (mx + 1).toNat (count.getD syms)
+            ((List.range (mx + 1 - minLen).toNat).map fun j => minLen + nat j)) := by
+          apply ofLengthDFA_minimal syms _ _ _ c hc hcc
+          intro i j hij hj
+          refine ⟨mx.toNat - i, ?_⟩
+          have h1 : nat (min (mx + 1).toNat (i + (mx.toNat - i))) ∈
+              (List.range (mx + 1 - minLen).toNat).map (fun j => minLen + nat j) := by
+            simp only [List.mem_map, List.mem_range]
+            refine ⟨(mx - minLen).toNat, by omega, ?_⟩
+            rw [nat_cast, nat_cast]; omega
+          have h2 : ¬ nat (min (mx + 1).toNat (j + (mx.toNat - i))) ∈
+              (List.range (mx + 1 - minLen).toNat).map (fun j => minLen + nat j) := by
+            simp only [List.mem_map, List.mem_range, not_exists, not_and]
+            intro x hx e
+            rw [nat_cast, nat_cast] at e
+            omega
+          simp [h1, h2]
+        exact ⟨rfl, h, C15_minimal_of_shape _ hwf h⟩
+
+/-- The number of states `of_length` returns: one for the two early returns, otherwise one per
+counter value `0 … min` resp. `0 … max + 1`. -/
+theorem C15_of_length_size (syms : List α) (minLen : Int) (maxLen : Option Int)
+    (count : Option (List α)) :
+    ∀ d, ofLength syms minLen maxLen count = .ok d →
+      d.states.length =
+        if isDisjoint syms (count.getD syms) || emptyRange minLen maxLen then 1
+        else match maxLen with
+          | none => minLen.toNat + 1
+          | some mx => (mx + 1).toNat + 1 := by
+  intro d hd
+  have hlen : ∀ n cnt, (akeys (ofLengthTable syms n cnt)).length = n + 1 := by
+    intro n cnt
+    unfold ofLengthTable
+    rw [akeys, List.length_map, length_ainsert_new]
+    · simp
+    · rw [akeys_rangeMap]
+      simp only [List.mem_map, List.mem_range, not_exists, not_and, nat_inj]
+      intro x hx e; omega
+  cases hdis : isDisjoint syms (count.getD syms) with
+  | true =>
+    rw [eq_of_build (ofLength_eq_disjoint syms minLen maxLen count hdis) hd]
+    simp [loopDFA]
+  | false =>
+    cases hemp : emptyRange minLen maxLen with
+    | true =>
+      rw [eq_of_build (ofLength_eq_emptyRange syms minLen maxLen count hdis hemp) hd]
+      simp [loopDFA]
+    | false =>
+      rw [eq_of_build (ofLength_eq syms minLen maxLen count hdis hemp) hd]
+      cases maxLen <;> simp [ofLengthDFA, hlen]
 
 example : Builds (ofLength ['a', 'b'] 1 (some 2) (some ['a'])) ['a', 'b']
     (fun w => (1 : Int) ≤ countIn ['a'] w ∧ ∀ mx, some (2 : Int) = some mx → (countIn ['a'] w : Int) ≤ mx) :=
   C15_of_length _ 1 (by decide) _ _
+
+example : ofLength ['a', 'b'] (-2) (some 1) (some ['b']) = .error (.lib .invalidStateError) :=
+  C15_of_length_negative_min _ _ (by decide) _ (by decide) _ 'b' (by decide) (by decide)
 
 /-! ## nth_from_start, nth_from_end -/
 
@@ -256,7 +385,7 @@ theorem C15_nth_from_start (syms : List α) (s : α) (n : Int) (hn : 1 ≤ n) (h
       intro r hr
       simp only [List.mem_singleton] at hr
       rw [hr, nat_cast]; omega
-    refine builds_of syms ((nthFromStart_eq_single syms s n hn hs hlen).trans (ofLength_eq syms n none none))
+    refine builds_of syms ((nthFromStart_eq_single syms s n hn hs hlen).trans (ofLength_eq_all syms n (by rintro rfl; cases hs)))
       (ofLengthDFA_wf syms _ _ _ hfin) rfl (fun w => ?_)
     rw [ofLengthDFA_accepts syms _ _ _ hfin]
     simp only [List.mem_singleton, nat_inj, Option.getD_none]
@@ -296,7 +425,7 @@ theorem C15_nth_from_end (syms : List α) (s : α) (n : Int) (hn : 1 ≤ n) (hs 
       intro r hr
       simp only [List.mem_singleton] at hr
       rw [hr, nat_cast]; omega
-    refine builds_of syms ((nthFromEnd_eq_single syms s n hn hs hlen).trans (ofLength_eq syms n none none))
+    refine builds_of syms ((nthFromEnd_eq_single syms s n hn hs hlen).trans (ofLength_eq_all syms n (by rintro rfl; cases hs)))
       (ofLengthDFA_wf syms _ _ _ hfin) rfl (fun w => ?_)
     rw [ofLengthDFA_accepts syms _ _ _ hfin]
     simp only [List.mem_singleton, nat_inj, Option.getD_none]
@@ -358,6 +487,67 @@ theorem C15_nth_minimal (syms : List α) (s : α) (n : Int) (hn : 1 ≤ n) (hs :
     rw [eq_of_build (nthFromEnd_eq syms s n hn hs hlen) hd]
     have h := nthEndDFA_minimal syms s n.toNat hs (by omega) t ht hts
     exact ⟨rfl, by simp [nthEndDFA], h, C15_minimal_of_shape _ hwf h⟩
+
+/-- Over a one-symbol alphabet `nth_from_start` / `nth_from_end` delegate to
+`of_length(min_length = n)`: `n + 1` states, minimal as well. -/
+theorem C15_nth_minimal_single (syms : List α) (s : α) (n : Int) (hn : 1 ≤ n) (hs : s ∈ syms)
+    (hlen : syms.length = 1) :
+    (∀ d, nthFromStart syms s n = .ok d →
+      d.allowPartial = false ∧ d.states.length = n.toNat + 1 ∧ MinimalShape d ∧ MinimalAmongComplete d) ∧
+    (∀ d, nthFromEnd syms s n = .ok d →
+      d.allowPartial = false ∧ d.states.length = n.toNat + 1 ∧ MinimalShape d ∧ MinimalAmongComplete d) := by
+  have hne : syms ≠ [] := by rintro rfl; cases hs
+  have hdis : isDisjoint syms ((none : Option (List α)).getD syms) = false := by
+    rw [isDisjoint_eq_false_iff]; exact ⟨s, hs, hs⟩
+  have key : ∀ d, ofLength syms n none none = .ok d →
+      d.allowPartial = false ∧ d.states.length = n.toNat + 1 ∧ MinimalShape d ∧ MinimalAmongComplete d := by
+    intro d hd
+    obtain ⟨h1, h2, h3⟩ := C15_of_length_minimal syms n none none d hd
+    have h4 := C15_of_length_size syms n none none d hd
+    rw [hdis] at h4
+    exact ⟨h1, by simpa [emptyRange] using h4, h2, h3⟩
+  constructor
+  · intro d hd
+    rw [nthFromStart_eq_single syms s n hn hs hlen] at hd
+    exact key d hd
+  · intro d hd
+    rw [nthFromEnd_eq_single syms s n hn hs hlen] at hd
+    exact key d hd
+
+/-- Minimality of `nth_from_start` / `nth_from_end` over **every** alphabet (a Python set:
+duplicate-free) containing the symbol: one symbol (`C15_nth_minimal_single`) or more
+(`C15_nth_minimal`). -/
+theorem C15_nth_minimal_all (syms : List α) (hsyms : syms.Nodup) (s : α) (n : Int) (hn : 1 ≤ n)
+    (hs : s ∈ syms) :
+    (∀ d, nthFromStart syms s n = .ok d →
+      d.allowPartial = false ∧ MinimalShape d ∧ MinimalAmongComplete d) ∧
+    (∀ d, nthFromEnd syms s n = .ok d →
+      d.allowPartial = false ∧ MinimalShape d ∧ MinimalAmongComplete d) := by
+  by_cases hlen : syms.length = 1
+  · obtain ⟨h1, h2⟩ := C15_nth_minimal_single syms s n hn hs hlen
+    exact ⟨fun d hd => let ⟨a, _, b, c⟩ := h1 d hd; ⟨a, b, c⟩,
+      fun d hd => let ⟨a, _, b, c⟩ := h2 d hd; ⟨a, b, c⟩⟩
+  · obtain ⟨t, ht, hts⟩ : ∃ t ∈ syms, t ≠ s := by
+      cases syms with
+      | nil => cases hs
+      | cons a rest =>
+        cases rest with
+        | nil => exact absurd rfl hlen
+        | cons b rest' =>
+          have hab : a ≠ b := by
+            intro e
+            rw [List.nodup_cons] at hsyms
+            exact hsyms.1 (by simp [e])
+          by_cases h : a = s
+          · exact ⟨b, by simp, fun e => hab (h.trans e.symm)⟩
+          · exact ⟨a, by simp, h⟩
+    obtain ⟨h1, h2⟩ := C15_nth_minimal syms s n hn hs t ht hts
+    exact ⟨fun d hd => let ⟨a, _, b, c⟩ := h1 d hd; ⟨a, b, c⟩,
+      fun d hd => let ⟨a, _, b, c⟩ := h2 d hd; ⟨a, b, c⟩⟩
+
+example : ∀ d, nthFromStart ['a'] 'a' 3 = .ok d →
+    d.allowPartial = false ∧ d.states.length = (3 : Int).toNat + 1 ∧ MinimalShape d ∧ MinimalAmongComplete d :=
+  (C15_nth_minimal_single ['a'] 'a' 3 (by decide) (by decide) rfl).1
 
 example : Builds (nthFromEnd ['a', 'b'] 'a' 2) ['a', 'b']
     (fun w => (2 : Int).toNat ≤ w.length ∧ w[w.length - (2 : Int).toNat]? = some 'a') :=
@@ -575,10 +765,32 @@ def size (r : Res (DFA σ α)) : Option Nat :=
   | .ok d => some d.states.length
   | .error _ => none
 
+/-- The exception raised by a constructor call, if any. -/
+def raised (r : Res (DFA σ α)) : Option Exn :=
+  match r with
+  | .ok _ => none
+  | .error e => some e
+
+/-- Regression witnesses of the repaired finding F15 (fix bcfb456), evaluated on the model:
+`of_length({'a'}, 3, 1)` and `of_length({'a','b'}, 2, 3, symbols_to_count={'c'})` have one state
+and reject everything (before the repair: 3 resp. 5 states); a non-degenerate call keeps its
+ladder; a negative minimum with a maximum raises `InvalidStateError`. -/
+theorem C15_of_length_regressions :
+    size (ofLength ['a'] 3 (some 1) none) = some 1 ∧
+    verdict (ofLength ['a'] 3 (some 1) none) ['a', 'a'] = some false ∧
+    size (ofLength ['a', 'b'] 2 (some 3) (some ['c'])) = some 1 ∧
+    verdict (ofLength ['a', 'b'] 2 (some 3) (some ['c'])) ['a', 'b'] = some false ∧
+    size (ofLength ['a', 'b'] 0 (some 3) (some ['c'])) = some 1 ∧
+    verdict (ofLength ['a', 'b'] 0 (some 3) (some ['c'])) ['a', 'b'] = some true ∧
+    size (ofLength ['a', 'b'] 1 (some 3) (some ['a', 'c'])) = some 5 ∧
+    raised (ofLength ['a'] (-1) (some 1) none) = some (.lib .invalidStateError) := by decide
+
 /-- `from_substrings(Σ, S, contains, must_be_suffix)` (Aho–Corasick) for every duplicate-free
-alphabet, every list of patterns over it — in **every** insertion order, with patterns that are
-prefixes / suffixes / infixes of one another, with the empty pattern (early return, the repair of
-finding F10b) — and both values of both flags: the trie, the failure links and the output links
+alphabet, **every** list of patterns — over the alphabet or with symbols outside it (trie nodes
+below such a symbol get a label but no row: the second BFS only follows symbols of `Σ`, and
+`end_state = len(labels)` stays above every label, the repair of finding F20), in **every**
+insertion order, with patterns that are prefixes / suffixes / infixes of one another, with the
+empty pattern (early return, the repair of finding F10b) — and both values of both flags: the trie, the failure links and the output links
 are built without error and the result is a valid complete DFA accepting exactly the words over
 `Σ` that contain (resp. end with) one of the patterns, or exactly the others when
 `contains = False`.  (The documentation does not promise minimality.)  Behind it
@@ -588,10 +800,11 @@ in the trie and makes the output chain non-empty iff a non-empty suffix is a pat
 (`acFailBfs_spec`, with the BFS-order invariant "everything not deeper than the head of the
 queue is linked"); the goto function leads to the node of the longest suffix of `x·a` in the
 trie (`acGoto_spec`); the state after `w` is the node of the longest suffix of `w` that is a
-prefix of a pattern (`acState_spec`), absorbing in substring mode into the fresh state
-`len(labels)` (`acSub_inv`). -/
-theorem C15_from_substrings (syms : List α) (hsyms : syms.Nodup) (pats : List (List α))
-    (contains sf : Bool) (hover : ∀ p ∈ pats, ∀ c ∈ p, c ∈ syms) :
+prefix of a pattern (`acState_spec`) — for a word over `Σ` that node is one of the tabulated
+ones (`acState_vis`, `Tabulated`: one row per node whose string is over `Σ`) —, absorbing in
+substring mode into the fresh state `len(labels)` (`acSub_inv`). -/
+theorem C15_from_substrings_general (syms : List α) (hsyms : syms.Nodup) (pats : List (List α))
+    (contains sf : Bool) :
     Builds (fromSubstrings syms pats contains sf) syms
       (fun w => (∃ p ∈ pats, if sf then p <:+ w else p <:+: w) ↔ contains = true) := by
   by_cases hne : [] ∈ pats
@@ -603,7 +816,7 @@ theorem C15_from_substrings (syms : List α) (hsyms : syms.Nodup) (pats : List (
     · exact List.nil_infix
     · exact List.nil_suffix
   · obtain ⟨nodes, paths, acc, hL, hTab, he⟩ :=
-      AC.fromSubstrings_eq syms pats contains sf hsyms hover hne
+      AC.fromSubstrings_eq syms pats contains sf hsyms hne
     cases sf with
     | true =>
       refine builds_of syms he (AC.acSuffix_wf syms acc hL hTab contains) rfl (fun w => ?_)
@@ -613,6 +826,47 @@ theorem C15_from_substrings (syms : List α) (hsyms : syms.Nodup) (pats : List (
       refine builds_of syms he (AC.acSub_wf syms acc hL hTab contains) rfl (fun w => ?_)
       rw [AC.acSub_accepts syms acc hL hTab contains w]
       simp
+
+/-- The same for patterns over the alphabet (the form used by C19). -/
+theorem C15_from_substrings (syms : List α) (hsyms : syms.Nodup) (pats : List (List α))
+    (contains sf : Bool) (hover : ∀ p ∈ pats, ∀ c ∈ p, c ∈ syms) :
+    Builds (fromSubstrings syms pats contains sf) syms
+      (fun w => (∃ p ∈ pats, if sf then p <:+ w else p <:+: w) ↔ contains = true) :=
+  C15_from_substrings_general syms hsyms pats contains sf
+
+/-- Patterns with symbols outside the alphabet need no special treatment in the statement: a
+word over `Σ` cannot contain them, so the language is that of the patterns over `Σ` alone. -/
+theorem C15_from_substrings_foreign (syms : List α) (hsyms : syms.Nodup) (pats : List (List α))
+    (contains sf : Bool) :
+    Builds (fromSubstrings syms pats contains sf) syms
+      (fun w => (∃ p ∈ pats.filter (fun p => p.all fun c => decide (c ∈ syms)),
+        if sf then p <:+ w else p <:+: w) ↔ contains = true) := by
+  obtain ⟨d, h1, h2, h3, h4⟩ := C15_from_substrings_general syms hsyms pats contains sf
+  refine ⟨d, h1, h2, h3, fun w => ?_⟩
+  rw [h4]
+  refine and_congr_right fun hw => ?_
+  have : (∃ p ∈ pats, if sf then p <:+ w else p <:+: w) ↔
+      (∃ p ∈ pats.filter (fun p => p.all fun c => decide (c ∈ syms)),
+        if sf then p <:+ w else p <:+: w) := by
+    constructor
+    · rintro ⟨p, hp, h⟩
+      refine ⟨p, List.mem_filter.mpr ⟨hp, ?_⟩, h⟩
+      rw [List.all_eq_true]
+      intro c hc
+      have hsub : c ∈ w := by
+        cases sf
+        · exact (List.IsInfix.subset h) hc
+        · exact (List.IsSuffix.subset h) hc
+      exact decide_eq_true (hw c hsub)
+    · rintro ⟨p, hp, h⟩
+      exact ⟨p, (List.mem_filter.mp hp).1, h⟩
+  show (_ ↔ contains = true) ↔ (_ ↔ contains = true)
+  rw [this]
+
+example : Builds (fromSubstrings ['a', 'b'] [['c', 'c'], ['a', 'b'], ['b', 'c', 'a']] true false) ['a', 'b']
+    (fun w => (∃ p ∈ [['c', 'c'], ['a', 'b'], ['b', 'c', 'a']], if false then p <:+ w else p <:+: w) ↔
+      true = true) :=
+  C15_from_substrings_general _ (by decide) _ _ _
 
 example : Builds (fromSubstrings ['a', 'b'] [['a', 'a', 'b'], ['a', 'b'], ['b', 'b']] true true) ['a', 'b']
     (fun w => (∃ p ∈ [['a', 'a', 'b'], ['a', 'b'], ['b', 'b']], if true then p <:+ w else p <:+: w) ↔
@@ -740,5 +994,78 @@ theorem C15_from_finite_language_instance :
     size (fromFiniteLanguage (fun a b => decide (a < b)) [0, 1]
           [[1, 0, 1], [0, 1], [1, 1], [0, 0, 1]] false) = some 5 := by
   refine ⟨by decide, by decide, by decide⟩
+
+/-! ## Error outcomes
+
+Inputs outside the hypotheses of the language theorems above: the constructors do **not** return
+a (wrong) DFA, they raise.  Together with `C15_nth_errors`, `C15_count_mod_nonpositive` and
+`C15_of_length_negative_min` every excluded input class has its outcome stated. -/
+
+/-- `from_prefix` with a pattern symbol outside the alphabet: the symbol becomes a key of the
+transition table and `cls(...)` refuses it with a library exception (`InvalidSymbolError`, or
+`MissingSymbolError` when the foreign key makes an incomplete row look complete). -/
+theorem C15_from_prefix_foreign (syms p : List α) (contains asPartial : Bool)
+    (h : ∃ c ∈ p, c ∉ syms) : ∃ e, fromPrefix syms p contains asPartial = .error (.lib e) := by
+  obtain ⟨c, hc, hcs⟩ := h
+  rw [fromPrefix_eq]
+  exact build_error_of_not_wf (prefixDFA_not_wf syms p contains asPartial c hc hcs)
+
+/-- `from_subsequence` with a pattern symbol outside the alphabet
+(`transitions[prev_state][char] = next_state` adds the key): a library exception. -/
+theorem C15_from_subsequence_foreign (syms p : List α) (contains : Bool)
+    (h : ∃ c ∈ p, c ∉ syms) : ∃ e, fromSubsequence syms p contains = .error (.lib e) := by
+  obtain ⟨c, hc, hcs⟩ := h
+  rw [fromSubsequence_eq]
+  exact build_error_of_not_wf (subseqDFA_not_wf syms p contains c hc hcs)
+
+/-- `from_finite_language` with a word carrying a symbol outside the alphabet: the incremental
+construction still runs to its end without `KeyError` (the invariant does not depend on the
+alphabet), and the table is refused by `cls(...)` / `_to_complete` with a library exception —
+in both forms. -/
+theorem C15_from_finite_language_foreign (lt : α → α → Bool) (ho : FL.StrictTotal lt)
+    (syms : List α) (lang : List (List α)) (hnd : lang.Nodup) (asPartial : Bool)
+    (h : ∃ w ∈ lang, ∃ c ∈ w, c ∉ syms) :
+    ∃ e, fromFiniteLanguage lt syms lang asPartial = .error (.lib e) := by
+  obtain ⟨w, hw, c, hc, hcs⟩ := h
+  have hne : lang ≠ [] := by rintro rfl; cases hw
+  obtain ⟨added, last, s, φ, hmem, hadd, inv, he⟩ :=
+    FL.fromFiniteLanguage_eq ho syms lang asPartial hne hnd
+  have hw' : w ∈ added := (hmem w).mpr hw
+  rw [he]
+  cases asPartial with
+  | true => exact build_error_of_not_wf (FL.flPartial_not_wf syms inv hadd w hw' c hc hcs)
+  | false => exact build_error_of_not_wf (FL.flComplete_not_wf syms inv hadd w hw' c hc hcs)
+
+/-- `count_mod` with a remainder outside `range(k)` (`k > 0`): `final_states = remainders`
+contains a non-state, `InvalidStateError`. -/
+theorem C15_count_mod_bad_remainder (syms : List α) (k : Int) (hk : 0 < k)
+    (remainders : Option (List Int)) (count : Option (List α))
+    (h : ∃ r ∈ remainders.getD [0], r < 0 ∨ k ≤ r) :
+    countMod syms k remainders count = .error (.lib .invalidStateError) := by
+  obtain ⟨r, hr, hbad⟩ := h
+  rw [countMod_eq syms k hk]
+  exact countModDFA_bad_remainder syms k.toNat _ (by omega) _ r hr (by omega)
+
+/-- Concrete error outcomes, evaluated on the model (symbols `a, b, c` = `0, 1, 2`):
+`from_prefix({a,b}, "ac")` and `from_subsequence({a,b}, "ca")` raise `InvalidSymbolError`,
+`from_prefix({a}, "ab")` raises `MissingSymbolError` (the foreign key makes the row look
+complete), `from_finite_language({a,b}, {"ac"})` raises `InvalidSymbolError` in both forms,
+`count_mod({a,b}, 3, {3})` raises `InvalidStateError`. -/
+theorem C15_error_instances :
+    raised (fromPrefix [0, 1] [0, 2] true true) = some (.lib .invalidSymbolError) ∧
+    raised (fromPrefix [0] [0, 1] true true) = some (.lib .missingSymbolError) ∧
+    raised (fromPrefix [0, 1] [0, 2] false true) = some (.lib .invalidSymbolError) ∧
+    raised (fromSubsequence [0, 1] [2, 0] true) = some (.lib .invalidSymbolError) ∧
+    raised (fromFiniteLanguage (fun a b => decide (a < b)) [0, 1] [[0, 2]] true) =
+      some (.lib .invalidSymbolError) ∧
+    raised (fromFiniteLanguage (fun a b => decide (a < b)) [0, 1] [[0, 2]] false) =
+      some (.lib .invalidSymbolError) ∧
+    raised (countMod [0, 1] 3 (some [3]) none) = some (.lib .invalidStateError) := by decide
+
+example : ∃ e, fromPrefix ['a', 'b'] ['a', 'c'] true false = .error (.lib e) :=
+  C15_from_prefix_foreign _ _ _ _ ⟨'c', by decide, by decide⟩
+
+example : countMod ['a', 'b'] 3 (some [0, 5]) none = .error (.lib .invalidStateError) :=
+  C15_count_mod_bad_remainder _ 3 (by decide) _ _ ⟨5, by decide, by decide⟩
 
 end AV.Props.C15
